@@ -136,6 +136,22 @@ def unit_lean():
                        kind="vacuity", fn="lemmas/Sums.lean", note=note)]
 
 
+def unit_gauss_contracts():
+    """premises of this property's proofs: the contract clauses of vt that the obligations above
+    assume are verified on the real bodies (the C17 units, re-run here under this property's name, so
+    that a change inside a callee that breaks a clause this property relies on is reported here too)"""
+    from . import c17
+    out = []
+    for u in ('unit_vt',):
+        for r in getattr(c17, u)():
+            if r["kind"] == "canary" or not any(k in r["name"] for k in ('/vt/odd-up-to-2t',)):
+                continue          # only the clauses this property's proofs rely on
+            r = dict(r)
+            r["name"] = r["name"].replace("C17/", "C07/helper/")
+            out.append(r)
+    return out
+
+
 def units(tier):
     us = [("unit_lemmas", ())] + ([("unit_lean", ())] if tier == "thorough" else [])
     nmax = 4 if tier == "quick" else 8
@@ -152,6 +168,7 @@ def units(tier):
         for sizes in ((1, 1), (2, 2), (1, 1, 1)):
             us.append(("unit_compute", (m, sizes, "default", True)))
     us.sort(key=lambda u: (-(sum(u[1][1]) * 2 ** len(u[1][1])) if u[0] not in ("unit_lemmas", "unit_anysize", "unit_lean") else (-(2 ** u[1][1]) if u[0] == "unit_anysize" else (-10 ** 9 if u[0] == "unit_lean" else 0))))
+    us.insert(0, ("unit_gauss_contracts", ()))
     return us
 
 
@@ -173,5 +190,5 @@ def main(tier, seed):
         ],
         explanation=("The precision-weighted total T of the mu changes is built from the result terms of the real _compute and reduced to its exact normal form: for Plackett-Luce and both Bradley-Terry models it is the zero polynomial for every listed shape and tie pattern; "
                      "for the Thurstone-Mosteller models it is exactly the sum over tied pairs of (vt(x,t)+vt(-x,t))/c_iq with x_qi = -x_iq and t = kappa/c_iq proved, so the vt contract bounds it by sum 2 kappa/c_iq^2 (generic lemmas by z3). The equal-variance corollary is a one-step lemma."),
-        shapes=sorted({(str(u[1][1]) if u[0] != "unit_anysize" else f"n={u[1][1]}, every team size") for u in units(tier) if u[0] not in ("unit_lemmas", "unit_lean")}),
+        shapes=sorted({(str(u[1][1]) if u[0] != "unit_anysize" else f"n={u[1][1]}, every team size") for u in units(tier) if len(u[1]) > 1}),
     )
